@@ -1092,6 +1092,78 @@ def quad_records(ctx):
                'snp': [rats(np.asarray(c2.spectra[i][ip]).ravel()) for i in range(n)]}
         add('vourlaki', 'DFE.Vourlaki_mixture', inp,
             obs(lambda: DFE.Vourlaki_mixture([al, be, pw, gp, pc, pcp], None, c1, c2, theta, None)))
+    # ---------------- asymmetric densities that (nearly) vanish at the symmetry probe points ----------------
+    # Cache2D.integrate decides with sel_dist(testx, testx) at testx = (0.01, 1, 100) whether it may reuse the
+    # gamma1 tail masses for gamma2.  Clearly asymmetric densities whose values at the off-diagonal probe pairs
+    # are all far below 1e-8 (narrow lognormals / high-shape gammas centred at gammas of order 1..6) exercise
+    # that decision with exterior_int=True: a probe that lets absolute smallness pass as symmetry changes the
+    # edge and corner masses of population 2.
+    rng2 = random.Random(ctx.seed + 1717)
+    PROBE = [0.01, 1.0, 100.0]
+
+    def low_probe_asym(lognormal):
+        while True:
+            if lognormal:
+                name = 'biv_lognormal'
+                m1, m2 = rng2.uniform(math.log(0.4), math.log(6.0)), rng2.uniform(math.log(0.4), math.log(6.0))
+                if abs(m1 - m2) < 0.8:
+                    continue
+                p = [m1, m2, rng2.uniform(0.25, 0.4), rng2.uniform(0.25, 0.4), rng2.uniform(-0.6, 0.6)]
+                ref = ref_biv_lognormal
+            else:
+                name = 'biv_ind_gamma'
+                a1, a2 = rng2.uniform(6.0, 10.0), rng2.uniform(6.0, 10.0)
+                b1, b2 = rng2.uniform(0.08, 0.6), rng2.uniform(0.08, 0.6)
+                if abs(math.log(a1 * b1) - math.log(a2 * b2)) < 0.8:
+                    continue
+                p = [a1, a2, b1, b2]
+                ref = ref_biv_ind_gamma
+            off = [ref(p, a, b) for a in PROBE for b in PROBE if a != b]
+            if max(off) < 1e-10:
+                return name, p
+    NA = 8 if ctx.quick else 60
+    for k in range(NA):
+        name, p = low_probe_asym(k % 8 not in (1, 6))
+        grid = rng2.choice([(0.25, 8.0), (0.125, 4.0), (0.5, 3.0)])
+        blind = k % 4 == 0
+        c = small_cache2(rng2.randint(4, 6), grid[0], grid[1], blind=blind, extra=(2.5, 0.75))
+        pdf = getattr(PDFs, name)
+        spec = tab2(name, p, c.neg_gammas)
+        theta = rng2.choice(THETAS)
+        mode = k % 4
+        if mode in (0, 1):
+            add('integrate2d', 'Cache2D.integrate', {'theta': rat(theta), 'ext': True, 'c2': enc_c2(c), 'pdf2': spec},
+                obs(lambda: c.integrate(p, None, pdf, theta, None, exterior_int=True)), cls=name + '/asym-lowprobe')
+        elif mode == 2:
+            gl = list(c.gammas)
+            n = len(c.neg_gammas)
+            p1, p2 = rng2.choice([0.0625, 0.125, 0.25]), rng2.choice([0.0625, 0.25, 0.5])
+            g1, g2 = rng2.choice([2.5, 0.75]), rng2.choice([2.5, 0.75])
+            rho = rng2.choice([0.0, 0.25, 0.5])
+            i1, i2 = gl.index(g1), gl.index(g2)
+            params = list(p) + [p1, g1, p2, g2]
+            add('pointpos2d', 'Cache2D.integrate_point_pos',
+                {'theta': rat(theta), 'c2': enc_c2(c), 'pdf2': spec, 'rho': rat(rho), 'p1': rat(p1), 'p2': rat(p2),
+                 'sq': rat(math.sqrt(p1 * p2)), 'pospos': rats(np.asarray(c.spectra[i1][i2]).ravel()),
+                 'spn': [rats(np.asarray(c.spectra[i1][j]).ravel()) for j in range(n)],
+                 'snp': [rats(np.asarray(c.spectra[i][i2]).ravel()) for i in range(n)]},
+                obs(lambda: c.integrate_point_pos(params, None, pdf, theta, rho=rho)), cls=name + '/asym-lowprobe')
+        else:
+            # DFE.mixture: the 1-D component is the population-1 marginal family with the shared parameters
+            c1 = small_cache1(rng2.randint(4, 5), grid[0], grid[1], blind=blind, extra=(2.5, 0.75), pair=True)
+            p2d = rng2.choice([0.25, 0.5, 1.0])
+            if name == 'biv_lognormal':
+                shared, tail = p[:4], p[4]
+                pdf1 = lambda xx, q: PDFs.lognormal(xx, [q[0], q[2]])
+                spec1 = tab1('lognormal', [p[0], p[2]], c1.neg_gammas)
+            else:
+                shared, tail = p[:4], 0.0          # a fifth parameter of biv_ind_gamma is documented as ignored
+                pdf1 = lambda xx, q: PDFs.gamma(xx, [q[0], q[2]])
+                spec1 = tab1('gamma', [p[0], p[2]], c1.neg_gammas)
+            add('mixture', 'DFE.mixture', {'theta': rat(theta), 'ext': True, 'c1': enc_c1(c1), 'pdf1': spec1, 'c2': enc_c2(c),
+                                           'pdf2': spec, 'p2d': rat(p2d)},
+                obs(lambda: DFE.mixture(list(shared) + [tail, p2d], None, c1, c, pdf1, pdf, theta, None, exterior_int=True)),
+                cls=name + '/asym-lowprobe')
     stats['t_2d'] = round(time.time() - t0, 1)
     # ---------------- compiled bivariate densities ----------------
     NP = 250 if ctx.quick else 3000
